@@ -21,9 +21,6 @@ from common import cN, cnat, cbool, clist, cbytes, copt
 
 THEORY = "C06"
 LOCAL = "L"
-REAL_MAX = 10000000
-ERR_KINDS = ("BadMarker", "TooBig", "BadPayload", "NoHandshake", "WrongDirection", "RepeatedHandshake",
-             "BadDestination", "BadSource")
 
 
 # ------------------------------------------------------------------------------------------------
@@ -209,46 +206,30 @@ class Router:
         self.removed.append(name)
 
 
-def classify(e):
-    n, s = type(e).__name__, str(e)
-    if n == "QMI_RuntimeException":
-        for pat, k in (("Protocol violation", "BadMarker"), ("Protocol packet too big", "TooBig"),
-                       ("Expecting handshake", "NoHandshake"), ("Received server handshake", "WrongDirection"),
-                       ("Received client handshake", "WrongDirection"), ("Unexpected handshake", "RepeatedHandshake")):
-            if s.startswith(pat):
-                return k
-        if "closed by peer before handshake" in s:
-            return None
-    if n == "QMI_MessageDeliveryException":
-        if s.startswith("Unexpected destination"):
-            return "BadDestination"
-        if s.startswith("Unexpected source"):
-            return "BadSource"
-    if isinstance(e, _socket.timeout):
-        return "Timeout"
-    return "BadPayload"
+_SILENCED = False
 
 
-class _Cap(logging.Handler):
-    sink = None
-
-    def emit(self, record):
-        if self.sink is not None and record.exc_info and str(record.msg).startswith("Error on connection"):
-            self.sink.append(("error", classify(record.exc_info[1])))
-
-
-_CAP = None
-
-
-def _install_cap():
-    global _CAP
-    if _CAP is None:
-        _CAP = _Cap()
+def _silence_logging():
+    """The check never reads QMI's log output (texts, levels and the presence of log lines are the
+    implementation's free choice); it is only kept off the terminal."""
+    global _SILENCED
+    if not _SILENCED:
         lg = logging.getLogger("qmi.core.messaging")
-        lg.addHandler(_CAP)
-        lg.setLevel(logging.INFO)
+        lg.addHandler(logging.NullHandler())
         lg.propagate = False
-    return _CAP
+        _SILENCED = True
+
+
+_REAL_MAX = None
+
+
+def real_max():
+    """MAX_MESSAGE_SIZE as the code under test defines it (a parameter of the model, not a constant of the check)"""
+    global _REAL_MAX
+    if _REAL_MAX is None:
+        from qmi.core import messaging as M
+        _REAL_MAX = int(M._PeerTcpConnection.MAX_MESSAGE_SIZE)
+    return _REAL_MAX
 
 
 # ------------------------------------------------------------------------------------------------
@@ -258,9 +239,8 @@ def _install_cap():
 def impl_run(case):
     from qmi.core import messaging as M
     A = M.QMI_MessageHandlerAddress
-    cap = _install_cap()
+    _silence_logging()
     log = []
-    cap.sink = log
     sock = ScriptSock(7, log)
     router = Router(case["rejects"])
     router.log, router.sock = log, sock
@@ -284,11 +264,18 @@ def impl_run(case):
             router.in_read = False
 
     def pump():
-        guard = 0
+        """deliver the readable data; if that closes the connection, the receive path met an error (EOF is a
+        separate script op): record it, without looking at exception class, text or log output, just before the
+        error replies that close() generated in the same step"""
+        before, guard = len(log), 0
+        was_open = is_open()
         while sock.rx and is_open():
             handle_read()
             guard += 1
             assert guard < 200000
+        if was_open and not is_open():
+            pos = next((j for j in range(before, len(log)) if log[j][0] in ("fail", "refused")), len(log))
+            log.insert(pos, ("error",))
 
     if incoming:
         alias = "$client_1"
@@ -322,10 +309,9 @@ def impl_run(case):
             ok = True
         except AssertionError:
             raise
-        except Exception as e:
-            k = classify(e)
-            if k is not None:
-                log.append(("error", k))
+        except Exception:
+            if not sock.eof:            # not the peer closing before the handshake was complete: a violation
+                log.append(("error",))
             conn.close()
             ok = False
         router.in_read = False
@@ -350,11 +336,8 @@ def impl_run(case):
             chunk = stream[st["pos"]:st["pos"] + op[1]]
             st["pos"] += op[1]
             if is_open():
-                before = len(log)
                 sock.rx += chunk
                 pump()
-                if not is_open() and not any(e[0] == "error" for e in log[before:]):
-                    log.append(("error", "Unknown"))
         elif op[0] == "eof":
             if is_open():
                 sock.eof = True
@@ -373,7 +356,6 @@ def impl_run(case):
                 sm.send_message(m)
             except AssertionError:
                 log.append(("assert",))
-    cap.sink = None
 
     obs = {
         "events": log,
@@ -394,7 +376,6 @@ def impl_run(case):
     by = {"ok": False, "why": "no bystander connection"}
     if by_alias is not None:
         router.log, router.sock = bylog, sock2
-        cap.sink = bylog
         conn2 = sm._peer_context_map.get(by_alias)
         try:
             sock2.rx += wire({"k": "hs", "src": ["by"], "srv": False}) + \
@@ -414,8 +395,7 @@ def impl_run(case):
             by = {"ok": False, "why": "bystander connection raised %s: %s" % (type(e).__name__, e)}
         finally:
             router.in_read = False
-            cap.sink = None
-    obs["bystander"] = by
+            obs["bystander"] = by
     return obs
 
 
@@ -457,7 +437,7 @@ def expected(case, obs):
     from qmi.core import messaging as M
     A = M.QMI_MessageHandlerAddress
     stream = bytes.fromhex(case["stream"])
-    maxsz = case["max"] if case["max"] is not None else REAL_MAX
+    maxsz = case["max"] if case["max"] is not None else real_max()
     incoming, alias, rejects = case["incoming"], obs["alias"], set(case["rejects"])
     frames, tail = ref_parse(stream, maxsz)
     ex = {"deliver": [], "fail": [], "senterr": [], "closed": False, "sent": 0}
@@ -621,7 +601,8 @@ def c_event(e, I):
         return "%s %s" % ({"deliver": "EDeliver", "fail": "EFail", "refused": "ERefused", "sent": "ESent"}[e[0]],
                           c_msg(e[1], I))
     if e[0] == "error":
-        return "EError %s" % e[1] if e[1] in ERR_KINDS else "EOutOfFuel"
+        return "EErr"       # the connection was closed by the receive path; which exception, with which text, is
+        #                     the implementation's choice and is not observed
     if e[0] == "assert":
         return "EAssert"
     return "EOutOfFuel"
@@ -636,7 +617,7 @@ def coq_case(case, obs, literal=False):
     stream = bytes.fromhex(case["stream"])
     if len(stream) > (3000 if literal else 200000):
         return None
-    maxsz = case["max"] if case["max"] is not None else REAL_MAX
+    maxsz = case["max"] if case["max"] is not None else real_max()
     I = Intern()
     frames, tail = ref_parse(stream, maxsz)
     names, lets, tab, pieces, o = {}, [], [], [], 0
@@ -801,7 +782,7 @@ def make_case(rng, incoming, nmsgs, fault=None, fpos=0, seg="random", nsends=0, 
               disc=False, late_sends=0, pads=(), cuts=None, bucket="random"):
     peer = rng.choice(["peerctx", "P2", "ctx-with-long-name_0123456789"])
     alias = "$client_1" if incoming else peer
-    mx = maxsz if maxsz is not None else REAL_MAX
+    mx = maxsz if maxsz is not None else real_max()
     items = []
     if fault != "no_hs" and not (fault == "wrongdir_hs" and fpos == 0):
         items.append(wire({"k": "hs", "src": [peer], "srv": not incoming}))
@@ -875,7 +856,7 @@ def gen_cases(ck):
     for incoming in (True, False):
         base = make_case(rng, incoming, 2, seg="one", bucket="sweep-cut")
         stream = bytes.fromhex(base["stream"])
-        frames, _ = ref_parse(stream, REAL_MAX)
+        frames, _ = ref_parse(stream, real_max())
         starts = [0] + [e for e, _ in frames]
         pts = set()
         for s in starts:
@@ -916,7 +897,7 @@ def gen_cases(ck):
     for _ in range(150 if not thorough else 1500):
         incoming = rng.random() < 0.5
         probe = make_case(rng, incoming, rng.choice([1, 2, 3]), seg="one")
-        fr, _ = ref_parse(bytes.fromhex(probe["stream"]), REAL_MAX)
+        fr, _ = ref_parse(bytes.fromhex(probe["stream"]), real_max())
         sizes = [len(p) for _, p in fr]
         mx = rng.choice(sizes) + rng.choice([-1, 0, 0, 1])
         cs = dict(probe)
@@ -967,7 +948,7 @@ def close_refusal_case(rng, incoming, n, refused, cause, answered=None, seg="one
     if answered is not None:
         pre = wire({"k": rng.choice(["rep", "err"]), "src": [peer, "s1"], "dst": [LOCAL, "q%d" % answered],
                     "id": "c%d" % answered, "body": 1})
-    bad = b"" if cause in ("eof", "disc") else fault_item(rng, cause, peer, incoming, alias, REAL_MAX)
+    bad = b"" if cause in ("eof", "disc") else fault_item(rng, cause, peer, incoming, alias, real_max())
     tail = wire(rand_peer_msg(rng, peer)) if bad else b""
     stream = hs + pre + bad + tail
     script = [["send", {"k": "hs", "src": [LOCAL, "$router"], "srv": incoming}], ["recv", len(hs)]]
@@ -1015,7 +996,7 @@ def close_refusal_cases(rng, thorough):
 def limit_case(rng, exact):
     peer = "peerctx"
     hs = wire({"k": "hs", "src": [peer], "srv": False})
-    target = REAL_MAX if exact else REAL_MAX + 1
+    target = real_max() if exact else real_max() + 1
     pad = target - 400
     for _ in range(6):
         d = {"k": "oth", "src": [peer, "s1"], "dst": [LOCAL, "o1"], "body": 9, "pad": pad}
@@ -1053,8 +1034,9 @@ def run(ck):
     ck.trusted = [
         "Coq 8.16.1 kernel (vm_compute evaluates the model on the cases; no native_compute)",
         "hand-written model theories/C06/Model.v of _PeerTcpConnection, tied to /repo by this run's correspondence",
-        "python harness c06.py: scripted socket, stub event loop and router, canonicalisation of messages, "
-        "classification of the logged receive-side exception",
+        "python harness c06.py: scripted socket, stub event loop and router, canonicalisation of messages "
+        "(error texts, log output, exception classes and the sizes of locally generated replies are not observed; "
+        "MAX_MESSAGE_SIZE is read from the code under test)",
         "CPython pickle (round trip on QMI message objects; the model takes unpickling as a table computed with "
         "the real pickle.loads)",
     ]
@@ -1086,9 +1068,8 @@ def run(ck):
         if "refused" in case:
             ck.count("close-refused:" + case["refused"])
         ck.count("refused-error-replies:%d" % min(3, sum(1 for e in obs["events"] if e[0] == "refused")))
-        for e in obs["events"]:
-            if e[0] == "error":
-                ck.count("error:" + str(e[1]))
+        if any(e[0] == "error" for e in obs["events"]):
+            ck.count("closed-by-receive-error")
         bad = oracle(case, obs)
         if bad:
             if ck.known_open("oracle:" + bad[0]) is None and not any(v.key == "oracle:" + bad[0] for v in ck.violations):
